@@ -71,7 +71,8 @@ def setup_evaluate(ip, st, fr, case):
         st.ghost['$dh_sizes'] = st.new_dict({})
     fr['self'] = st.new_obj('Policy', f)
     party = st.new_obj('<party>', {'compression': symlist(st, 'comp'), 'encryption': symlist(st, 'enc'), 'mac': symlist(st, 'mac')})
-    fr['kex'] = st.new_obj('<kex>', {'key_algorithms': symlist(st, 'keys'), 'kex_algorithms': symlist(st, 'kexs'), 'server': party})
+    other = st.new_obj('<party>', {'compression': symlist(st, 'ccomp'), 'encryption': symlist(st, 'cenc'), 'mac': symlist(st, 'cmac')})
+    fr['kex'] = st.new_obj('<kex>', {'key_algorithms': symlist(st, 'keys'), 'kex_algorithms': symlist(st, 'kexs'), 'server': party, 'client': other})
     fr['banner'] = None
     for k in FIELDS:
         st.ghost['n:' + k] = 0
